@@ -73,7 +73,7 @@ impl Drop for Op {
 
 #[kani::proof]
 #[kani::unwind(4)]
-// bound: one operation in the polling configuration; the submitter lets go of its key before or after the driver's single final completion (solver-chosen), result Ok(n) or an OS error
+// bound: one operation in the polling configuration; the submitter lets go of its key (plain drop, or cancel = cancelled flag set, then drop) before or after the driver's single final completion (solver-chosen), result Ok(n) or an OS error
 // claim: the final completion reaches the operation's own set_result exactly once, with the driver's result, while the operation is still alive — also when the submitter has already abandoned it — and the operation is dropped exactly once afterwards, releasing what the completion handed to it
 pub fn c01_q_abandoned_completion_reaches_op() {
     let key = hook::detached_key(Op { holds: false }, DriverType::Poll);
@@ -84,6 +84,11 @@ pub fn c01_q_abandoned_completion_reaches_op() {
     let res = if ok { Ok(val as usize) } else { Err(io::Error::from_raw_os_error(val as i32)) };
     let abandon_first: bool = kani::any();
     if abandon_first {
+        // the submitter gives up: either it just lets go of its key, or it cancels first (Proactor::cancel marks the
+        // key cancelled before it hands it to the driver)
+        if kani::any() {
+            assert!(!hook::mark_cancelled(&key));
+        }
         drop(key);
         assert!(unsafe { DROPS } == 0, "operation freed while the kernel still owns it");
         hook::complete(kernel, res);
